@@ -214,7 +214,10 @@ Definition c10_rwhere (x : ccase) : list (nat * list (N * Z)) :=
      end) (k_cfg x) (TSt ∅ ∅ ∅) ∅ (k_iters x) 0%nat.
 
 (** graceful stops with the trashbin on (C11): the trashbin life cycle of every object as the
-    C10 clauses demand it (no handler invoked out of turn or twice) and the healed final state.
-    Between a 'recycled' and the queued 'modified' that carries the differences the expected-state
-    local cache lags behind by design, so C07's "at all times" clause is not part of this oracle. *)
-Definition c11_trash_case (x : ccase) : bool := c10_case x && c07_healed_case x.
+    C10 clauses demand it (no handler invoked out of turn or twice) and the drained final state:
+    queue empty, nothing raised, local data = mapped projection of the replayed bus = replayed
+    target. The expected-state copies are left out: between a 'recycled' and the queued 'modified'
+    that carries the differences the expected-state local cache lags behind by design, and it
+    loses the object for good when that object is removed and re-added meanwhile - in a healthy
+    run too, so the uninterrupted run C11 compares with shows the same. *)
+Definition c11_trash_case (x : ccase) : bool := c10_case x && c08_healed_case x.
